@@ -23,13 +23,16 @@ import (
 // nothing else is ever assigned to the two results, the loop visits every element (no early exit) and the function
 // returns the two loop-carried values.
 func minterSelectRule(w *World, r *Report, rule string) {
-	fn := w.Func("x/cfeminter/keeper.getCurrentAndPreviousMinter")
+	fn := w.selectionFunc()
 	if fn == nil {
-		r.Unk("infra.anchor", "x/cfeminter/keeper.getCurrentAndPreviousMinter", "", "anchor not found")
+		r.Unk("infra.anchor", "x/cfeminter/keeper.getCurrentAndPreviousMinter", "", "anchor not found: no function of the minter module returns the pair (current period, previous period)")
 		return
 	}
 	pos := w.Pos(fn.Pos())
-	var minters, state *ssa.Parameter
+	// the configured periods: a []*Minter parameter, or the Minters field of a Params parameter / receiver;
+	// the wanted id: the SequenceId of a MinterState parameter, or a uint32 parameter
+	var minters ssa.Value
+	var state, idParam *ssa.Parameter
 	for _, p := range fn.Params {
 		t := typeString(p.Type())
 		switch {
@@ -37,16 +40,25 @@ func minterSelectRule(w *World, r *Report, rule string) {
 			minters = p
 		case strings.HasSuffix(t, "types.MinterState"):
 			state = p
+		case t == "uint32":
+			idParam = p
 		}
 	}
-	if minters == nil || state == nil || fn.Signature.Results().Len() != 2 {
+	if minters == nil {
+		for _, l := range rangeLoops(fn) {
+			if l.Over != nil && loadOfField(l.Over, "Minters", nil) {
+				minters = l.Over
+			}
+		}
+	}
+	if minters == nil || (state == nil && idParam == nil) || fn.Signature.Results().Len() != 2 {
 		r.Unk(rule, "selection function: (periods, state) -> (current, previous)", pos, "unexpected signature")
 		return
 	}
 	var loop *rangeLoop
 	for _, l := range rangeLoops(fn) {
 		l := l
-		if l.Over == ssa.Value(minters) {
+		if l.Over == minters || sameLoad(l.Over, minters) {
 			if loop != nil {
 				loop = nil
 				break
@@ -68,7 +80,7 @@ func minterSelectRule(w *World, r *Report, rule string) {
 			if !ok || u.Op != token.MUL {
 				continue
 			}
-			if ia, ok := u.X.(*ssa.IndexAddr); ok && ia.X == ssa.Value(minters) {
+			if ia, ok := u.X.(*ssa.IndexAddr); ok && (ia.X == minters || sameLoad(ia.X, minters)) {
 				elem = u
 			}
 		}
@@ -111,11 +123,14 @@ func minterSelectRule(w *World, r *Report, rule string) {
 		if v == ssa.Value(phis[1]) {
 			return "prevptr"
 		}
+		if idParam != nil && v == ssa.Value(idParam) {
+			return "c"
+		}
 		if b, ok := seqOf(v); ok {
 			switch {
 			case b == elem:
 				return "x"
-			case b == ssa.Value(state):
+			case state != nil && b == ssa.Value(state):
 				return "c"
 			case b == ssa.Value(phis[1]):
 				return "p"
@@ -213,4 +228,50 @@ func minterSelectRule(w *World, r *Report, rule string) {
 		check(phis[0], sc.cur, "current")
 		check(phis[1], sc.prev, "previous")
 	}
+}
+
+// selectionFunc: the function the emission and the inflation routine share to pick the current period and its
+// predecessor: the named helper of the pinned tree, or - when it was moved or re-shaped - the only production function
+// of the minter module that returns a pair (*Minter, *Minter) and is called by the minting routine.
+func (w *World) selectionFunc() *ssa.Function {
+	if f := w.Func("x/cfeminter/keeper.getCurrentAndPreviousMinter"); f != nil {
+		return f
+	}
+	if w.selFn != nil {
+		return w.selFn
+	}
+	mint := w.Func("x/cfeminter/keeper.Keeper.mint")
+	if mint == nil {
+		return nil
+	}
+	var cands []*ssa.Function
+	for _, e := range w.effectsBelow(mint, func(s *Site) bool {
+		h := s.Static
+		if h == nil || h.Blocks == nil || !w.isProdFunc(h) || !strings.Contains(pkgPathOf(h), "/x/cfeminter") {
+			return false
+		}
+		res := h.Signature.Results()
+		return res.Len() == 2 && strings.HasSuffix(typeString(res.At(0).Type()), "types.Minter") && strings.HasSuffix(typeString(res.At(1).Type()), "types.Minter") &&
+			strings.HasPrefix(typeString(res.At(0).Type()), "*") && strings.HasPrefix(typeString(res.At(1).Type()), "*")
+	}, 2) {
+		dup := false
+		for _, c := range cands {
+			if c == e.Site.Static {
+				dup = true
+			}
+		}
+		if !dup {
+			cands = append(cands, e.Site.Static)
+		}
+	}
+	if len(cands) == 1 {
+		w.selFn = cands[0]
+	}
+	return w.selFn
+}
+
+// isSelectionCall: the call's callee is the shared selection function.
+func (w *World) isSelectionCall(c *ssa.CallCommon) bool {
+	f := w.selectionFunc()
+	return f != nil && c.StaticCallee() == f
 }
